@@ -220,8 +220,11 @@ struct Out {
 
 static std::string bits(double v) { char b[64]; snprintf(b, sizeof b, "%.17g", v); return b; }
 
+// bitwise equality; two NaNs are equal whatever their sign / payload bits (x86 gives the default NaN a sign bit, NaN
+// propagation keeps the first operand's: not a property of the value)
+static bool same_dbl(double a, double b) { return (a != a && b != b) || !std::memcmp(&a, &b, sizeof(double)); }
 static bool same_vec(const double *a, const std::vector<double> &b, std::string &why) {
-    for (size_t i = 0; i < b.size(); ++i) if (std::memcmp(&a[i], &b[i], sizeof(double))) { why = "x[" + std::to_string(i) + "] = " + bits(a[i]) + " (C) vs " + bits(b[i]) + " (C++)"; return false; }
+    for (size_t i = 0; i < b.size(); ++i) if (!same_dbl(a[i], b[i])) { why = "x[" + std::to_string(i) + "] = " + bits(a[i]) + " (C) vs " + bits(b[i]) + " (C++)"; return false; }
     return true;
 }
 
@@ -309,14 +312,14 @@ static void capi_case(Out o, const Sys &s, const PSet &ps, const std::string &op
         if (!same_vec(x, rx, why)) o.fail("capi.precond_apply", ctx + ": " + why);
     } else if (op == "solve") {
         if ((size_t)ci.iterations != rit) o.fail("capi.iterations", ctx + ": " + std::to_string(ci.iterations) + " vs " + std::to_string(rit));
-        if (std::memcmp(&ci.residual, &rres, 8)) o.fail("capi.residual", ctx + ": " + bits(ci.residual) + " vs " + bits(rres));
+        if (!same_dbl(ci.residual, rres)) o.fail("capi.residual", ctx + ": " + bits(ci.residual) + " vs " + bits(rres));
         if (!same_vec(x_after_first.data(), rx, why)) o.fail("capi.solution", ctx + ": " + why);
-        if ((size_t)ci2.iterations != rit2 || std::memcmp(&ci2.residual, &rres2, 8) || !same_vec(x, rx2, why))
+        if ((size_t)ci2.iterations != rit2 || !same_dbl(ci2.residual, rres2) || !same_vec(x, rx2, why))
             o.fail("capi.second_solve", ctx + ": second right-hand side on the same handle: iterations " + std::to_string(ci2.iterations) + " vs " + std::to_string(rit2) + ", residual " + bits(ci2.residual) + " vs " + bits(rres2) + " " + why);
         if (rit >= 1) o.count("solves_with_iterations");
     } else {
         if ((size_t)ci.iterations != rit) o.fail("capi.mtx.iterations", ctx + ": " + std::to_string(ci.iterations) + " vs " + std::to_string(rit));
-        if (std::memcmp(&ci.residual, &rres, 8)) o.fail("capi.mtx.residual", ctx + ": " + bits(ci.residual) + " vs " + bits(rres));
+        if (!same_dbl(ci.residual, rres)) o.fail("capi.mtx.residual", ctx + ": " + bits(ci.residual) + " vs " + bits(rres));
         if (!same_vec(x, rx, why)) o.fail("capi.mtx.solution", ctx + ": " + why);
     }
     if (creport != rreport) o.fail("capi.report", ctx + ": report text differs: [" + creport.substr(0, 200) + "] vs [" + rreport.substr(0, 200) + "]");
@@ -551,10 +554,11 @@ static void run_life() {
             long l1 = g_live_blocks;
             life_run(orders[oi], a, b, ps, got);
             long l2 = g_live_blocks;
-            auto same = [](const conv_info &p, const conv_info &q) { return p.iterations == q.iterations && !std::memcmp(&p.residual, &q.residual, 8); };
-            if (!same(got.c1, ref.c1) || std::memcmp(got.x1.data(), ref.x1.data(), ref.x1.size() * 8)) o.fail("life.solver1_result", "differs from the isolated run");
-            if (!same(got.c2, ref.c2) || std::memcmp(got.x2.data(), ref.x2.data(), ref.x2.size() * 8)) o.fail("life.solver2_result", "differs from the isolated run");
-            if (std::memcmp(got.xm.data(), ref.xm.data(), ref.xm.size() * 8)) o.fail("life.precond_result", "differs from the isolated run");
+            auto same = [](const conv_info &p, const conv_info &q) { return p.iterations == q.iterations && same_dbl(p.residual, q.residual); };
+            std::string w;
+            if (!same(got.c1, ref.c1) || !same_vec(got.x1.data(), ref.x1, w)) o.fail("life.solver1_result", "differs from the isolated run " + w);
+            if (!same(got.c2, ref.c2) || !same_vec(got.x2.data(), ref.x2, w)) o.fail("life.solver2_result", "differs from the isolated run " + w);
+            if (!same_vec(got.xm.data(), ref.xm, w)) o.fail("life.precond_result", "differs from the isolated run " + w);
             if (l1 != l0) o.fail("life.heap_not_returned", "isolated create/solve/destroy cycle leaves " + std::to_string(l1 - l0) + " live heap blocks");
             if (l2 != l1) o.fail("life.heap_not_returned", "this order leaves " + std::to_string(l2 - l1) + " live heap blocks after every handle was destroyed");
             if (ref.c1.iterations >= 1) o.count("lifecycle_solves_with_iterations");
